@@ -12,26 +12,43 @@ def isReadOp : Op → Bool
   | .readAndCopy _ | .tryReadExact _ | .ioRead _ | .deframe _ => true
   | _ => false
 
-/-- per-property agreement between model and implementation on the property's own observables -/
+def isWriteOp : Op → Bool
+  | .writeBytes _ | .writeStr _ | .ioWrite _ | .pokeWrote _ _ | .copyOnce _ => true
+  | _ => false
+
+/-- per-property agreement between model and implementation on the property's own observables.
+    C01: the unread bytes, len(), is_empty() after the call and the bytes a read handed out
+    (result classes are compared only through their effect: a call that panics where the model
+    returns None leaves the same stream and is C04's business, not C01's). -/
 def agreeC01 (op : Op) (mo : Out) (mp : Obs) (io : Out) (ip : Obs) : Bool :=
-  mo.cls == io.cls && mp.rd == ip.rd && (mp.wi - mp.ri == ip.wi - ip.ri) && mp.empty == ip.empty &&
-  (if isReadOp op then mo.bytes == io.bytes && mo.nums == io.nums else true)
+  mp.rd == ip.rd && (mp.wi - mp.ri == ip.wi - ip.ri) && mp.empty == ip.empty &&
+  (if isReadOp op && mo.cls != .panic && io.cls != .panic then mo.cls == io.cls && mo.bytes == io.bytes && mo.nums == io.nums else true)
 
-def agreeC03 (_op : Op) (mo : Out) (mp : Obs) (io : Out) (ip : Obs) : Bool :=
-  mo.cls == io.cls && mo.nums == io.nums && (mp.wi - mp.ri == ip.wi - ip.ri) && mp.free == ip.free
+/-- C03: Ok/Err and count of writes, len() and writable().len() after every call -/
+def agreeC03 (op : Op) (mo : Out) (mp : Obs) (io : Out) (ip : Obs) : Bool :=
+  (if isWriteOp op then mo.cls == io.cls && mo.nums == io.nums else true) &&
+  (mp.wi - mp.ri == ip.wi - ip.ri) && mp.free == ip.free
 
-def agreeC04 (_op : Op) (mo : Out) (mp : Obs) (io : Out) (ip : Obs) : Bool :=
-  (mo.cls == .panic) == (io.cls == .panic) &&
-  (if mo.cls == .panic then mp.ri == ip.ri && mp.wi == ip.wi && mp.rd == ip.rd else true)
+def agreeC04 (b : Buf) (op : Op) (mo : Out) (mp : Obs) (io : Out) (ip : Obs) : Bool :=
+  match op with
+  | .tryParse ops _ =>
+    -- closures that break the contract of read_byte/read_bytes themselves are outside C04
+    if scriptPanics b ops then true else (mo.cls == .panic) == (io.cls == .panic)
+  | _ =>
+    (mo.cls == .panic) == (io.cls == .panic) &&
+    (if mo.cls == .panic then mp.ri == ip.ri && mp.wi == ip.wi && mp.rd == ip.rd else true)
 
 def agreeC10 (op : Op) (mo : Out) (mp : Obs) (io : Out) (ip : Obs) : Bool :=
   match op with
   | .deframe _ => mo.cls == io.cls && mo.nums == io.nums && mo.bytes == io.bytes && mp.rd == ip.rd && mp.mem == ip.mem
   | _ => true
 
-def agreeC11 (op : Op) (mo : Out) (mp : Obs) (io : Out) (ip : Obs) : Bool :=
+def agreeC11 (b : Buf) (op : Op) (mo : Out) (mp : Obs) (io : Out) (ip : Obs) : Bool :=
   match op with
-  | .tryParse _ _ => mo.cls == io.cls && (mo.cls == .panic || (mp.ri == ip.ri && mp.wi == ip.wi && mp.rd == ip.rd))
+  | .tryParse ops sm =>
+    if scriptPanics b ops then true
+    else if sm then mo.cls == io.cls && mp.rd == ip.rd && mp.len == ip.len
+    else mo.cls == io.cls && mp.rd == ip.rd && mp.len == ip.len && mp.free == ip.free
   | _ => true
 
 def agreeC12 (op : Op) (mo : Out) (mp : Obs) (io : Out) (ip : Obs) : Bool :=
@@ -89,9 +106,9 @@ def checkT1 (oc : Bool) (pre : List String) (opT : List String) (outT : List Str
   if !(mo == io && mp == ip) then v := "DRIFT" :: v
   if !agreeC01 op mo mp io ip then v := "DIFF C01" :: v
   if !agreeC03 op mo mp io ip then v := "DIFF C03" :: v
-  if !agreeC04 op mo mp io ip then v := "DIFF C04" :: v
+  if !agreeC04 b op mo mp io ip then v := "DIFF C04" :: v
   if !agreeC10 op mo mp io ip then v := "DIFF C10" :: v
-  if !agreeC11 op mo mp io ip then v := "DIFF C11" :: v
+  if !agreeC11 b op mo mp io ip then v := "DIFF C11" :: v
   if !agreeC12 op mo mp io ip then v := "DIFF C12" :: v
   if !Sat_C01 b op io ip then v := "UNSAT C01" :: v
   if !Sat_C03 b op io ip then v := "UNSAT C03" :: v
